@@ -21,19 +21,34 @@ func (w *vYieldBuf) Close() error { return nil }
 
 // two goroutines send packets (one with a separate payload write) through the
 // same conn: the byte stream must be a concatenation of whole frames.
+//
+// The packets are sent the way every client operation sends them (the real
+// clientConn.dispatchRequest), or through conn.sendPacket as the servers'
+// response path does.
+//
+//verif:noredirect (*github.com/pkg/sftp.clientConn).dispatchRequest
 func vh_C03_framing() {
 	w := &vYieldBuf{}
-	c := &conn{WriteCloser: w}
+	cc := &clientConn{conn: conn{WriteCloser: w}, inflight: make(map[uint32]chan<- result), closed: make(chan struct{})}
+	viaDispatch := vNondetBool()
 	id1, id2 := vNondetU32(), vNondetU32()
+	vAssume(id1 != id2)
+	send := func(p idmarshaler) {
+		if viaDispatch {
+			cc.dispatchRequest(make(chan result, 1), p)
+		} else {
+			cc.conn.sendPacket(p)
+		}
+	}
 	var wg sync.WaitGroup
 	wg.Add(2)
 	go func() {
 		defer wg.Done()
-		c.sendPacket(&sshFxpWritePacket{ID: id1, Handle: "h", Offset: 3, Length: 2, Data: []byte{7, 8}})
+		send(&sshFxpWritePacket{ID: id1, Handle: "h", Offset: 3, Length: 2, Data: []byte{7, 8}})
 	}()
 	go func() {
 		defer wg.Done()
-		c.sendPacket(&sshFxpReadPacket{ID: id2, Handle: "hh", Offset: 1, Len: 5})
+		send(&sshFxpReadPacket{ID: id2, Handle: "hh", Offset: 1, Len: 5})
 	}()
 	wg.Wait()
 	b := w.b
